@@ -133,7 +133,9 @@ class ExpandedTraceback:
         self.full_traceback = full_traceback
         self.hide_filenames = hide_filenames
         self.show_filenames = show_filenames
-        self.line_number = traceback.extract_tb(exc_info[2])[-1][1]
+        innermost = traceback.extract_tb(exc_info[2])[-1]
+        # Use whole-file numbering when the file is being run section by section
+        self.line_number = innermost[1] + line_offsets.get(innermost[0], 0)
         self.original_code_lines = original_code_lines
         self.student_files = student_files
 
